@@ -92,24 +92,15 @@ func (h *harness) buildCase(name string) corr.Case {
 	}
 	add(math.Inf(-1), fmt.Sprintf("pipe init %d %s %s", sc.Cap, h.mediasArg(), h.kinds()), "ok")
 	maxStamp := float64(h.clock.Load() + 10)
-	for j, w := range h.writes {
-		if w.err != nil {
-			continue
-		}
-		p := h.pk[j]
-		mk := 0
-		if p.marker {
-			mk = 1
-		}
-		fan := string(w.fan)
-		if fan == "" {
-			fan = "."
-		}
-		add(float64(w.wb), fmt.Sprintf("pipe write %d %d %d %d %d %d %s %s", p.media, p.pt, p.seq, p.ts, mk, p.ssrcIn,
-			corr.Hex(digest(genPayload(sc.Seed, j, p.size))), fan), fan)
+	// masked[j][r]: write j falls between the server's OnPause of reader r and the end of that PAUSE
+	masked := make([][]bool, len(h.writes))
+	for j := range masked {
+		masked[j] = make([]bool, len(h.readers))
 	}
 	for _, rd := range h.readers {
 		r := rd.idx
+		firstPlay := true
+		nPause := 0
 		for _, ob := range rd.ctl {
 			switch ob.op {
 			case "play":
@@ -124,7 +115,8 @@ func (h *harness) buildCase(name string) corr.Case {
 						}
 					}
 				}
-				if ob.first {
+				if firstPlay {
+					firstPlay = false
 					for k, m := range rd.spec.Medias {
 						ch := 2 * k
 						if k < len(rd.chans) && rd.chans[k] >= 0 {
@@ -147,11 +139,38 @@ func (h *harness) buildCase(name string) corr.Case {
 						}
 					}
 				}
+				// where the server destroyed the writer
+				kc := k2
+				if nPause < len(rd.pauseSeen) {
+					hs := rd.pauseSeen[nPause]
+					kc = float64(hs)
+					for _, j := range cs {
+						if h.writes[j].wb < hs && h.writes[j].we > hs {
+							// the write that overlaps the handler's return: pushed before or after ring.Close()
+							kc = float64(h.writes[j].wb) + 0.5
+							masked[j][r] = true
+						}
+					}
+				}
+				nPause++
+				if kc < k1 {
+					kc = k1
+				}
+				if k2 < kc {
+					k2 = kc
+				}
+				for _, j := range cs {
+					if wb := float64(h.writes[j].wb); wb > kc && wb < k2 {
+						masked[j][r] = true
+					}
+				}
 				if rd.udp {
 					add(k1, fmt.Sprintf("pipe pstart %d -", r), "ok")
+					add(kc, fmt.Sprintf("pipe pcl %d", r), "ok")
 					add(k2, fmt.Sprintf("pipe pinact %d", r), "ok")
 				} else {
 					add(k1, fmt.Sprintf("pipe pstart %d %d", r, ob.k), "ok")
+					add(kc, fmt.Sprintf("pipe pcl %d", r), "ok")
 					add(k2, fmt.Sprintf("pipe pinact %d", r), fmt.Sprintf("ok %d", ob.k))
 				}
 			case "leave":
@@ -194,6 +213,28 @@ func (h *harness) buildCase(name string) corr.Case {
 				add(float64(a.stamp), fmt.Sprintf("pipe arrive %d %d", r, a.wid), "ok")
 			}
 		}
+	}
+	for j, w := range h.writes {
+		if w.err != nil {
+			continue
+		}
+		p := h.pk[j]
+		mk := 0
+		if p.marker {
+			mk = 1
+		}
+		fb := append([]byte{}, w.fan...)
+		for r := range fb {
+			if masked[j][r] && fb[r] != '-' {
+				fb[r] = '?'
+			}
+		}
+		fan := string(fb)
+		if fan == "" {
+			fan = "."
+		}
+		add(float64(w.wb), fmt.Sprintf("pipe write %d %d %d %d %d %d %s %s", p.media, p.pt, p.seq, p.ts, mk, p.ssrcIn,
+			corr.Hex(digest(genPayload(sc.Seed, j, p.size))), fan), fan)
 	}
 	sort.SliceStable(items, func(i, j int) bool {
 		if items[i].key != items[j].key {
@@ -262,7 +303,11 @@ func (rd *reader) intervals() []interval {
 
 func (h *harness) checkProperty(c *corr.Ctx) {
 	sc := h.sc
+	desync := false // the reader under examination lost the SRTP rollover counter (known finding)
 	viol := func(clause, key, detail string) {
+		if desync && (key == "c01-tcp-missing" || key == "c01-tcp-missing-tail" || key == "c01-decode-error") {
+			key = "c01-srtp-roc-desync"
+		}
 		c.Violate(corr.Violation{Property: "C01", Clause: clause, Key: key, Where: "server stream → session queue → transport → client callback", Input: sc, Detail: detail})
 	}
 	for j, w := range h.writes {
@@ -274,6 +319,14 @@ func (h *harness) checkProperty(c *corr.Ctx) {
 	for _, rd := range h.readers {
 		r := rd.idx
 		who := fmt.Sprintf("reader %d (%s)", r, rd.spec.Transport)
+		desync = false
+		if sc.TLS && (sc.ArbSeq || sc.SRTPWrap) {
+			for _, e := range rd.decodeErrs {
+				if strings.Contains(e, "auth tag") {
+					desync = true
+				}
+			}
+		}
 		// identity
 		for i, rc := range rd.recs {
 			if rc.wid < 0 {
